@@ -82,6 +82,13 @@ def handlers : List (String × (List Sexp → String)) := [
       | none, _ => "bad-config"
       | _, none => "bad-node"
     | _ => "bad-args"),
+  -- is the program in the fragment of C18_sem_partial (and free of temporary-like names)?
+  ("c18.frag", fun a => match a with
+    | [c, s] => match config? c, parseStmt s with
+      | some cfg, some st => toString (Sexp.ofBool (fragFn cfg st && (namesS st).all (fun x => !isTempName x)))
+      | none, _ => "bad-config"
+      | _, none => "bad-node"
+    | _ => "bad-args"),
   -- run the small semantics on the function definition `s` applied to `args`
   ("c18.exec", fun a => match a with
     | [s, .list args] => match parseStmt s, args.mapM val? with
